@@ -47,8 +47,48 @@ func genName(r *gen.Rng) string {
 func be32b(v uint32) []byte { return binary.BigEndian.AppendUint32(nil, v) }
 
 // genCallback picks one template; fileID lets sequences reuse ids.
+func genDirListing(r *gen.Rng) cbT {
+	explorer, listOnly := uint32(r.Intn(2)), uint32(r.Intn(2))
+	fs := []fld{fI(1), fI(explorer), fI(listOnly), fW(genName(r)), fI(uint32(gen.Pick(r, []int{1, 1, 1, 0})))}
+	for d := 0; d < r.Intn(3); d++ {
+		root := gen.Pick(r, []string{"C:\\Users\\*", "", "C:\\*", "x", "\\\\srv\\share\\*"})
+		nf, nd := r.Intn(3), r.Intn(2)
+		if r.Chance(1, 6) {
+			nf = int(gen.Pick(r, []uint32{0xffffffff, 0x7fffffff, 1000}))
+		}
+		fs = append(fs, fW(root), fI(uint32(nf)), fI(uint32(nd)))
+		if listOnly == 0 {
+			fs = append(fs, fQ(uint64(r.Intn(100000))))
+		}
+		for i := 0; i < (nf+nd)%5; i++ {
+			fs = append(fs, fW(gen.Pick(r, []string{"a.txt", "", "sub", "..", "ü"})))
+			if listOnly == 0 {
+				fs = append(fs, fI(uint32(r.Intn(2))), fQ(uint64(r.Intn(5000))), fI(uint32(r.Intn(31))), fI(uint32(r.Intn(13))), fI(2024), fI(uint32(r.Intn(60))), fI(uint32(r.Intn(24))))
+			}
+		}
+	}
+	return cbT{"fs.dir", agent.COMMAND_FS, encFields(fs), "1"}
+}
+
 func genCallback(r *gen.Rng, fileID uint32) cbT {
-	switch r.Intn(24) {
+	switch r.Intn(31) {
+	case 27: // reverse port forward: socket open (ids from a small pool so duplicates happen), loopback target
+		return cbT{"socket.open", agent.COMMAND_SOCKET, body(fI(agent.SOCKET_COMMAND_OPEN), fI(uint32(0x50+r.Intn(4))), fI(0x0100007f), fI(uint32(40000+r.Intn(99))), fI(0x0100007f), fI(uint32(1+r.Intn(5)))), "?"}
+	case 28:
+		return cbT{"socket.read", agent.COMMAND_SOCKET, body(fI(agent.SOCKET_COMMAND_READ), fI(uint32(0x50+r.Intn(4))), fI(uint32(1+r.Intn(3))), fI(uint32(r.Intn(2))), fY(r.Bytes(r.Intn(20)))), "?"}
+	case 29:
+		return cbT{"socket.close", agent.COMMAND_SOCKET, body(fI(agent.SOCKET_COMMAND_CLOSE), fI(uint32(0x50+r.Intn(4))), fI(uint32(1+r.Intn(3)))), "?"}
+	case 30:
+		return cbT{"socket.rportfwd.remove", agent.COMMAND_SOCKET, body(fI(agent.SOCKET_COMMAND_RPORTFWD_REMOVE), fI(uint32(0x50+r.Intn(4))), fI(0x0100007f), fI(4444), fI(0x0100007f), fI(1)), "?"}
+	case 22:
+		return genDirListing(r)
+	case 23:
+		m := genRegInfo(r)
+		b := append(r.Bytes(32), r.Bytes(16)...)
+		b = append(b, encFields(m.fields(r.U32()))...)
+		return cbT{"checkin", agent.COMMAND_CHECKIN, b, "?"}
+	case 24:
+		return cbT{"demoninfo", agent.DEMON_INFO, body(fI(uint32(gen.Pick(r, []int{10, 11, 12, 21}))), fQ(r.U64b()), fI(r.U32()), fI(uint32(r.Intn(0x100))), fI(uint32(r.Intn(0x100)))), "?"}
 	case 0:
 		return cbT{"exit", agent.COMMAND_EXIT, body(fI(uint32(1 + r.Intn(2)))), "1"}
 	case 1:
